@@ -347,3 +347,140 @@ theorem runW {f : Nat} (ih : SpecsW f) (rbp : Nat) (p : P) (hc : Cur p) :
     exact h3
 
 end Ecal.Parse
+
+namespace Ecal.Parse
+open Ecal.Lex
+
+theorem Ext.wf_container {acc r : Node} {e : List Sig} (h : Ext acc r e) (hk : kindOf acc.name = .container) :
+    WellFormed r = true := h.wf (by rw [h.name]; exact shapeOk_container hk)
+
+theorem kw_funccall (bb) : KW (instanceOf bb T_FUNCCALL none) := by
+  rw [inst_funccall]; exact KW.mk0 _ _ _ _ _ _ (by decide)
+theorem name_funccall (bb t) : (instanceOf bb T_FUNCCALL t).name = "funccall" := by rw [inst_funccall]; rfl
+theorem kw_params (bb) : KW (instanceOf bb T_PARAMS none) := by
+  rw [inst_params]; exact KW.mk0 _ _ _ _ _ _ (by decide)
+theorem name_params (bb t) : (instanceOf bb T_PARAMS t).name = "params" := by rw [inst_params]; rfl
+theorem name_list (bb t) : (instanceOf bb T_LIST t).name = "list" := by rw [inst_list]; rfl
+theorem name_map (bb t) : (instanceOf bb T_MAP t).name = "map" := by rw [inst_map]; rfl
+
+theorem shapeOk_identifier {nm : String} {cs : List Sig} (h : kindOf nm = .identifier) :
+    shapeOk nm cs = cs.all identSig := by
+  simp only [shapeOk, h]; rfl
+
+theorem shapeOk_except {nm : String} {e : List Sig} {k : Nat} (h : kindOf nm = .except) :
+    shapeOk nm (e ++ [("statements", k)]) = true := by
+  simp [shapeOk, h]
+
+/-- name of an accepted token -/
+theorem accept_name {c : Node} {id : Nat} {nm : String} {b x l} (h : Fresh c) (hid : ∃ t, c.tok = some t ∧ t.id = id)
+    (hne : id ≠ 26) (htab : table id = some (nm, b, x, l)) : c.name = nm := by
+  obtain ⟨t, ht, hidt⟩ := hid
+  subst hidt
+  exact h.name_of_id ht hne htab
+
+theorem exceptsW {f : Nat} (ih : SpecsW f) (acc : Node) (p : P) (hc : Cur p) (hacc : KW acc) :
+    Sat (excepts (f+1) acc) p (fun r p' => Cur p' ∧ ∃ e, Ext acc r e ∧ e.all exceptSig = true) ET := by
+  rw [excepts]
+  wpr (isNotEndAndToken_spec _ hc)
+  rintro b _ rfl
+  split
+  · wpr (acceptChild_spec _ hc)
+    intro ex p1 ⟨hc1, _, hf1, hid1⟩
+    have hexn : ex.name = "except" := accept_name hf1 hid1 (by decide) (by rfl)
+    wpr (ih.exceptTypes _ _ hc1 hf1.KW)
+    intro ex2 p2 ⟨hc2, e2, hs2⟩
+    wpr (curId_spec hc2)
+    rintro id _ ⟨rfl, _⟩
+    apply Sat.bind (Q1 := fun ex3 q => Cur q ∧ ∃ e, Ext ex ex3 e) (E1 := ET) ?_ (fun _ he => he)
+    · intro ex3 p3 ⟨hc3, e3, hs3⟩
+      wpr (ih.innerStatements _ _ hc3 hs3.kw)
+      intro ex4 p4 ⟨hc4, k, hs4⟩
+      have h4 := hs3.trans hs4
+      have hn4 : ex4.name = "except" := h4.name.trans hexn
+      have hwf4 : WellFormed ex4 = true := h4.wf (by
+        rw [h4.sg, hf1.sigs, hn4]; exact shapeOk_except (by decide))
+      wlast (ih.excepts _ _ hc4 (hacc.add hwf4))
+      intro r p5 ⟨hc5, e5, he5, hall⟩
+      refine ⟨hc5, _, he5.of_add, ?_⟩
+      simp [exceptSig, hn4] at hall ⊢
+      exact hall
+    · split
+      · wpr (acceptChild_spec _ hc2)
+        intro a p3 ⟨hc3, _, hf3, hid3⟩
+        wpr (acceptChild_spec _ hc3)
+        intro i p4 ⟨hc4, _, hf4, hid4⟩
+        have han : a.name = "as" := accept_name hf3 hid3 (by decide) (by rfl)
+        have hwa : WellFormed (a.add (some i)) = true := (wf_iff _).2
+          ⟨hf3.KW.add (accept_wf hf4 hid4 (Or.inr rfl)).1, by
+            simp only [Node.add_name, sigs_add, hf3.sigs, List.nil_append, han]
+            exact shapeOk_one (by decide)⟩
+        exact Sat.pure ⟨hc4, _, hs2.trans (Ext.add1 hs2.kw hwa)⟩
+      · split
+        · wpr (acceptChild_spec _ hc2)
+          intro i p3 ⟨hc3, _, hf3, hid3⟩
+          exact Sat.pure ⟨hc3, _, hs2.trans (Ext.add1 hs2.kw (accept_wf hf3 hid3 (Or.inr rfl)).1)⟩
+        · exact Sat.pure ⟨hc2, _, hs2⟩
+  · exact Sat.pure ⟨hc, [], Ext.refl hacc, rfl⟩
+
+theorem parseMoreW {f : Nat} (ih : SpecsW f) (self acc : Node) (p : P) (hc : Cur p)
+    (hself : ∃ t, self.tok = some t) (hacc : KW acc) :
+    Sat (parseMore (f+1) self acc) p (fun r p' => Cur p' ∧ ∃ e, Ext acc r e ∧ e.all identSig = true) ET := by
+  rw [parseMore]
+  wpr (curId_spec hc)
+  rintro id _ ⟨rfl, _⟩
+  split
+  · wpr (skipToken_spec _ hc)
+    intro _ p1 ⟨hc1, _⟩
+    wpr (acceptChild_spec _ hc1)
+    intro nx p2 ⟨hc2, _, hf2, hid2⟩
+    have hnn : nx.name = "identifier" := accept_name hf2 hid2 (by decide) (by rfl)
+    wpr (ih.parseMore _ _ _ hc2 hself hf2.KW)
+    intro nx' p3 ⟨hc3, e, hs3, hall⟩
+    have hn' : nx'.name = "identifier" := hs3.name.trans hnn
+    have hwf : WellFormed nx' = true := hs3.wf (by
+      rw [hs3.sg, hf2.sigs, hn', shapeOk_identifier (by decide)]; simpa using hall)
+    refine Sat.pure ⟨hc3, _, Ext.add1 hacc hwf, ?_⟩
+    simp [identSig, hn']
+  · split
+    · wpr (skipToken_spec _ hc)
+      intro _ p1 ⟨hc1, _⟩
+      smk
+      wpr (ih.exprList _ _ _ hc1 (kw_funccall _))
+      intro fc p2 ⟨hc2, e2, hs2⟩
+      wpr (skipToken_spec _ hc2)
+      intro _ p3 ⟨hc3, _⟩
+      have hwf : WellFormed fc = true := hs2.wf_container (by rw [name_funccall]; decide)
+      have hfn : fc.name = "funccall" := hs2.name.trans (name_funccall _ _)
+      wlast (ih.parseMore _ _ _ hc3 hself (hacc.add hwf))
+      intro r p4 ⟨hc4, e4, hs4, hall⟩
+      refine ⟨hc4, _, hs4.of_add, ?_⟩
+      simp [identSig, hfn] at hall ⊢
+      exact hall
+    · wpr (cur_spec hc)
+      rintro cn _ ⟨rfl, hcn, hfc⟩
+      obtain ⟨ct, hct⟩ := hfc.tok
+      wpr (tokOf_spec _ hct)
+      rintro _ _ ⟨rfl, rfl⟩
+      have hself' := hself
+      obtain ⟨st, hst⟩ := hself
+      wpr (tokOf_spec _ hst)
+      rintro _ _ ⟨rfl, rfl⟩
+      split
+      · wpr (skipToken_spec _ hc)
+        intro _ p1 ⟨hc1, _⟩
+        smk
+        wpr (ih.run _ _ hc1)
+        intro e p2 ⟨hc2, hr2⟩
+        wpr (skipToken_spec _ hc2)
+        intro _ p3 ⟨hc3, _⟩
+        obtain ⟨hwf, hname, hlen⟩ := wf_compaccess1 p1.braceBlock hr2.2.1
+        wlast (ih.parseMore _ _ _ hc3 hself' (hacc.add hwf))
+        intro r p4 ⟨hc4, e4, hs4, hall⟩
+        have h5 := hs4.of_add
+        rw [hname, hlen] at h5
+        refine ⟨hc4, _, h5, ?_⟩
+        simp [identSig] at hall ⊢
+        exact hall
+      · exact Sat.pure ⟨hc, [], Ext.refl hacc, rfl⟩
+
+end Ecal.Parse
